@@ -23,7 +23,8 @@ PURE_METHODS = {'get', 'keys', 'items', 'values', 'getfieldval', 'tell', 'format
                 'total_seconds', 'copy', 'index', 'encode', 'decode', 'hex', 'getvalue', 'startswith', 'lower',
                 'guess_payload_class', 'getpeername', 'fileno', 'now', 'ip_address', 'hexlify', 'getLogger',
                 'get_extension_for_oid', 'get_values_for_type', 'getpeercert', 'load_der_x509_certificate',
-                'default_backend', 'match_hostname', 'cipher', 'timedelta', 'dumps', 'loads', 'build', 'show'}
+                'default_backend', 'match_hostname', 'cipher', 'timedelta', 'dumps', 'loads', 'build', 'show',
+                'format_exc', 'log_name', 'compile', 'escape'}
 PURE_FUNCS = {'len', 'min', 'max', 'int', 'str', 'bool', 'bytes', 'bytearray', 'tuple', 'list', 'set', 'dict', 'sorted',
               'enumerate', 'range', 'isinstance', 'repr', 'type', 'abs', 'id', 'print', 'getattr'}
 
@@ -74,6 +75,7 @@ class Engine(CoreMixin, ExprMixin, StmtMixin, CallMixin, BuiltinMixin):
         self.cur_fspec = None
         self.handling = []
         self.loop_iter_guard = []
+        self.live_views = []
         self.soft_skips = set()
         self.written = set()
         self.callee_keys = set()
@@ -108,8 +110,6 @@ class Engine(CoreMixin, ExprMixin, StmtMixin, CallMixin, BuiltinMixin):
         before now.  Needed to separate fresh allocations from everything reachable.'''
         c = self.alloc_counter()
         for sname, sc in self.spec.schemas.items():
-            if sname.startswith('pkt:'):
-                continue
             for fn, ft in sc.fields.items():
                 inner = ft.inner if isinstance(ft, TOpt) else ft
                 if not isinstance(inner, (TRef, TPkt)):
@@ -333,6 +333,20 @@ class Engine(CoreMixin, ExprMixin, StmtMixin, CallMixin, BuiltinMixin):
         f = n.func
         if isinstance(f, ast.Attribute):
             m = f.attr
+            if m in ('setfieldval', 'delfieldval'):
+                # scapy field store: the named field when the name is a literal; otherwise any field of the
+                # receiver's packet class when the receiver is a local of known packet type; otherwise anything
+                if n.args and isinstance(n.args[0], ast.Constant) and isinstance(n.args[0].value, str):
+                    fields.add(n.args[0].value)
+                    return
+                rv = self.frame.locals.get(f.value.id) if isinstance(f.value, ast.Name) and self.frame is not None else None
+                if rv is not None and isinstance(rv.t, TPkt):
+                    for fn in self.pkt_schema(rv.t.layers[0]).fields:
+                        # object-granular entry: only this packet's cells are havocked at a loop cut
+                        fields.add(('@obj', 'pkt:' + rv.t.layers[0], fn, rv.z, f.value.id))
+                    return
+                fields.add('*')
+                return
             if m in MUTATORS or m in FILE_METHODS:
                 b = f.value
                 if isinstance(b, ast.Attribute):
@@ -354,6 +368,15 @@ class Engine(CoreMixin, ExprMixin, StmtMixin, CallMixin, BuiltinMixin):
             ext = self.spec.notes.get('extern_writes', {})
             if m in ext:
                 ghosts.update(ext[m])
+                return
+            cbw = self.spec.notes.get('callback_writes', {})
+            if m in cbw:
+                # a callable held in an attribute of this name: writes what the contract files say it may
+                for w in cbw[m]:
+                    if w.startswith('ghost.'):
+                        ghosts.add(w[6:])
+                    else:
+                        fields.add(w.split('.')[-1])
                 return
             raise Unsupported('write set: unknown method %s' % m)
         if isinstance(f, ast.Name):
@@ -645,6 +668,7 @@ class Engine(CoreMixin, ExprMixin, StmtMixin, CallMixin, BuiltinMixin):
         self.written = set()
         self.handling = []
         self.loop_iter_guard = []
+        self.live_views = []
         self.depth = 0
         self.spec_mode = False
         self.old = None
@@ -850,8 +874,20 @@ class Engine(CoreMixin, ExprMixin, StmtMixin, CallMixin, BuiltinMixin):
                 f = self.spec.field(sch, fld)
                 if f is not None:
                     allowed.add((f[0], fld))
+        self_only = bool(fs.d.get('modifies_self_only')) and 'self' in (self.old_locals or {})
         if not star:
             for key in sorted(self.written):
+                if key in allowed and self_only:
+                    # object-granular frame promised to callers: only the fields of `self` may change
+                    cur = self.st.heap.get(key)
+                    old = self.old.heap.get(key)
+                    if cur is not None and old is not None and not cur.eq(old):
+                        r = z3.Int(fresh_name('fr'))
+                        sz = self.old_locals['self'].z
+                        goal = z3.ForAll([r], z3.Implies(z3.And(r > 0, r < self.old.alloc0 + self.old.alloc_k, r != sz),
+                                                         cur[r] == old[r]))
+                        self.ob('frame', '%s.%s(other objects)' % key, goal, props=(), aux=True)
+                    continue
                 if key in allowed:
                     continue
                 cur = self.st.heap.get(key)
